@@ -551,6 +551,13 @@ func (oc *objectCache) processExpr(info *types.Info, pkgPath string, expr ast.Ex
 	if obj := qualifiedIdentObject(info, expr); obj != nil {
 		item, errs := oc.get(obj)
 		return item, mapErrors(errs, func(err error) error {
+			if w, ok := err.(*wireErr); ok {
+				if _, isFunc := obj.(*types.Func); isFunc {
+					// A function that cannot be a provider is reported where it is
+					// listed (its declaration may be in the standard library).
+					return notePosition(exprPos, fmt.Errorf("%v (declared at %v)", w.error, w.position))
+				}
+			}
 			return notePosition(exprPos, err)
 		})
 	}
